@@ -23,12 +23,16 @@ VARIABLES l,        \* next line
           closedB,  \* allocations closed strictly before ev
           closed,   \* allocations closed up to and including ev
           closes,   \* name -> number of successful finalize/cancel transactions
-          taint     \* allocations / blobbers touched by an event that bin/vcheck marked as a LISTED known finding
+          taint,    \* allocations / blobbers touched by an event that bin/vcheck marked as a LISTED known finding
+          granted,  \* free-storage markers <<assigner, nonce>> accepted in this trace up to and including ev
+          freshFM,  \* ev's free-storage marker <<assigner, nonce>> had not been accepted before ev in this trace
+          redT      \* assigner -> tokens granted under it: the amount recorded at trace start + every grant accepted since
 
-vars == <<l, ev, prev, closedB, closed, closes, taint>>
+vars == <<l, ev, prev, closedB, closed, closes, taint, granted, freshFM, redT>>
 Null == [ev |-> "none"]
 
 TraceInit == l = 1 /\ ev = Null /\ prev = Null /\ closedB = {} /\ closed = {} /\ closes = <<>> /\ taint = {}
+             /\ granted = {} /\ freshFM = TRUE /\ redT = <<>>
 
 IsEvent(e) == l <= Len(Trace) /\ Trace[l].ev = e /\ l' = l + 1
 
@@ -70,6 +74,7 @@ SeqSet(s) == {s[j] : j \in 1..Len(s)}
 TraceReset ==
   /\ IsEvent("Reset")
   /\ ev' = Null /\ prev' = Null /\ closedB' = {} /\ closed' = {} /\ closes' = <<>> /\ taint' = {}
+  /\ granted' = {} /\ freshFM' = TRUE /\ redT' = <<>>
 
 GoneNow(p, e) == IF p = Null THEN {} ELSE {n \in Names(p.allocs) : OpenIn(p, n) /\ ~OpenIn(e, n)}
 
@@ -86,12 +91,20 @@ TraceStorage ==
        \* state that stays wrong for the rest of the trace: exactly those objects are exempted from the STATE
        \* invariants of the property being checked (the defect is reported as KNOWN-FINDING, never silently)
        /\ taint' = IF IsKnown(e) THEN taint \cup ({e.target, e.tblob} \ {""}) ELSE taint
+       \* the trace's own memory of redeemed markers: it does not depend on what the contract still remembers
+       \* (an assigner can be re-registered by the owner between two redemptions)
+       /\ freshFM' = (<<e.fm_assigner, e.fm_nonce>> \notin granted)
+       /\ granted' = IF e.fn = "free_allocation_request" /\ e.class = "ok"
+                       THEN granted \cup {<<e.fm_assigner, e.fm_nonce>>} ELSE granted
+       /\ redT' = IF e.fn = "init" THEN [n \in Names(e.assigners) |-> AssignerIn(e, n).red]
+                  ELSE IF e.fn = "free_allocation_request" /\ e.class = "ok" THEN Add(redT, e.fm_assigner, e.fm_tokens)
+                  ELSE redT
 
 \* other families' events (Ledger "Txn" lines) do not touch the tracked state; the last Storage event stays in ev
 TraceSkip ==
   /\ l <= Len(Trace) /\ Trace[l].ev \notin {"Reset", "Storage"}
   /\ l' = l + 1
-  /\ UNCHANGED <<ev, prev, closedB, closed, closes, taint>>
+  /\ UNCHANGED <<ev, prev, closedB, closed, closes, taint, granted, freshFM, redT>>
 
 TraceNext == TraceReset \/ TraceStorage \/ TraceSkip
 TraceSpec == TraceInit /\ [][TraceNext]_vars
@@ -206,7 +219,12 @@ C15_OnlyReads ==                                                    \* a read po
           \/ (ev.fn = "read_pool_unlock" /\ OK /\ ev.from = c)
 
 -----------------------------------------------------------------------------
-(* C24: free-storage markers.                                               *)
+(* C24: free-storage markers.  The owner may call add_free_storage_assigner   *)
+(* again for a registered assigner (other limits, another key): limits and    *)
+(* key are read from the projection BEFORE the redemption; "once per nonce"   *)
+(* and "total redeemed within the total limit" are about the ASSIGNER, not    *)
+(* about one registration of it, so the trace keeps its own record of the     *)
+(* redeemed markers and of the granted amount besides the contract's.         *)
 IsFree == IsStep /\ ev.fn = "free_allocation_request"
 NoDup(s) == Cardinality(SeqSet(s)) = Len(s)
 C24_Redeem ==
@@ -217,18 +235,27 @@ C24_Redeem ==
                   na == AssignerIn(ev, ev.fm_assigner)
               IN /\ ev.from = ev.fm_recipient                      \* only the named recipient
                  /\ ev.fm_sig                                      \* signed by the registered assigner key
-                 /\ ev.fm_nonce \notin SeqSet(pa.nonces)           \* once per nonce
+                 /\ ev.fm_nonce \notin SeqSet(pa.nonces)           \* once per nonce (the contract's record)
+                 /\ freshFM                                        \* once per nonce (this trace's own record)
                  /\ ev.fm_tokens <= pa.ind
-                 /\ pa.red + ev.fm_tokens <= pa.tot
+                 /\ pa.red + ev.fm_tokens <= pa.tot              \* within the total limit (the contract's record)
+                 /\ Get(redT, ev.fm_assigner, 0) <= pa.tot        \* within the total limit (this trace's own count,
+                                                                  \*   this grant included)
                  /\ na.red = pa.red + ev.fm_tokens
                  /\ SeqSet(na.nonces) = SeqSet(pa.nonces) \cup {ev.fm_nonce}
            /\ \E i \in 1..Len(ev.allocs) :                          \* the allocation goes to the recipient
                 /\ ev.allocs[i].present /\ ~HasAlloc(prev, ev.allocs[i].a)
                 /\ ev.allocs[i].owner = ev.fm_recipient
       ELSE ev.assigners = prev.assigners
+\* The redeemed amount is within the total limit.  The one way it can be above it is that the owner lowered the
+\* limit of an assigner below what it had already redeemed (a re-registration, not a grant): then the amount has
+\* not grown in this step - and, by induction over the trace, not since the limit was lowered.
+PrevRed(n) == IF prev # Null /\ HasAssigner(prev, n) /\ AssignerIn(prev, n).present THEN AssignerIn(prev, n).red ELSE -1
 C24_Limits ==
   IsSt => \A i \in 1..Len(ev.assigners) :
-     LET a == ev.assigners[i] IN a.present => a.red <= a.tot /\ NoDup(a.nonces)
+     LET a == ev.assigners[i] IN
+       a.present => /\ NoDup(a.nonces)
+                    /\ (a.red <= a.tot \/ (IsStep /\ a.red <= PrevRed(a.a)))
 C24_OnlyFree ==
   IsStep => (ev.assigners # prev.assigners => (IsFree /\ OK) \/ ev.fn = "add_free_storage_assigner")
 
